@@ -119,6 +119,11 @@ def variants(inv, rnd, tier):
         for l in ([], [0xF190], [0x0102, 0xF190, 0x1234], [0x1234, 0xFFFF], [0xFFFF, 0x1234], [0xFFFF, 0xFFFF], [0x0001], [0x10000], [-1], [0xF190, 0x10000],
                   [0xF190, 0xF190], [0x0304], [0x0304, 0x0102], [rnd.randrange(0x10000) for _ in range(5)]):
             yield {}, [len(l)] + l, list(inv.blobs), 'did list'
+        # other DID tables: a codec that reads all the remaining data on DID 0x0000 / on a middle DID, a 'default' entry, a lone entry
+        for table in ([(0x0000, -1), (0x0001, 1), (0x0002, 2)], [(0x0001, 1), (0x0000, -1)], [(0x0000, -1), (-1, 1)], [(0x0000, 2), (0x8000, -1), (-1, -1)],
+                      [(-1, 2)], [(0x0000, 0)]):
+            for l in ([0], [0, 1], [1, 0], [1, 0, 1], [0, 0], [2, 0], [0, 2, 1], [0x8000, 0], [0, 0x8000], [5, 0], [0, 5], [5, 6]):
+                yield {'dids': table}, [len(l)] + l, list(inv.blobs), 'did list x did table'
     if inv.callid == 20:
         from harness.callreg_ext import a_define_bydid, a_define_bymem
         for did in U16:
@@ -170,5 +175,6 @@ def build(inv, cfgo, args, blobs, replies=()):
     for s, v in inv.cfg.items():
         cfgv[s] = v
     for s, v in cfgo.items():
-        cfgv[s] = v
-    return cl.H(cfgv).call(inv.callid, args, blobs, list(replies))
+        if isinstance(s, int):
+            cfgv[s] = v
+    return cl.H(cfgv, dids=cfgo.get('dids')).call(inv.callid, args, blobs, list(replies))
